@@ -279,7 +279,9 @@ func (fe *hlslFE) startsDecl(p *parser) bool {
 		return true
 	}
 	if !fe.isTypeStart(p, t) {
-		return false
+		// "name name": a declaration with an unknown type name (reported by
+		// parseTypeName); statement keywords never reach this point
+		return p.peekN(1).Kind == TIdent && hlslReservedKind(t.Text) == ""
 	}
 	n := p.peekN(1)
 	if n.Kind == TIdent {
